@@ -25,7 +25,7 @@ import (
 
 // "à" (C3 A0) and "Å" (C3 85) are multi-byte runes whose continuation byte,
 // read as a Latin-1 code point, is a white-space character (NBSP, NEL).
-var c07Symbols = []string{"a", "\"", "\\", " ", "-", "*", "(", ")", ":", "@", ",", "/", "O", "R", "\xff", "à", "Å", ".", "=", "\x01"}
+var c07Symbols = []string{"a", "\"", "\\", " ", "-", "*", "(", ")", ":", "@", ",", "/", "O", "R", "\xff", "à", "Å", ".", "=", "\x01", "к", "Ĩ"}
 
 // bareOK reports whether s may be written as an unquoted word according to
 // the documented grammar: bareWord = [^-*"():@,][^ ():@,]*, no white space,
